@@ -21,12 +21,24 @@ func init() {
 		if c.P["reader"] == "plain" {
 			src = pc // an io.Reader and nothing else (no ByteReader, no Len)
 		}
-		db, err := signature.ReadSignatureDatabase(src)
+		var db signature.SignatureDatabase
+		var err error
+		var ub *bytes.Buffer
+		if c.P["reader"] == "unmarshal" {
+			// the object API: what the store's typed accessors use
+			ub = bytes.NewBuffer(append([]byte(nil), c.In...))
+			err = db.Unmarshal(ub)
+		} else {
+			db, err = signature.ReadSignatureDatabase(src)
+		}
 		if err != nil {
 			res.Err = err.Error()
 			return
 		}
 		rem := rd.Len()
+		if ub != nil {
+			rem = ub.Len()
+		}
 		if c.P["reader"] == "plain" {
 			// bytes pulled from the source but not part of any list are "dropped", not "left"
 			rem = 0
@@ -245,12 +257,36 @@ func checkC08(r *mon.Run) {
 			}
 		}
 	}
+	// three routes into the decoder: an in-memory reader, a bare io.Reader, and the object API
+	// (Unmarshal on a *bytes.Buffer). Small inputs take all three, large ones one each in turn.
+	var routed []eslMut
+	var routes []string
+	for i, m := range muts {
+		rs := []string{"", "plain", "unmarshal"}
+		if len(m.in) >= 2048 {
+			rs = rs[i%3 : i%3+1]
+			if rs[0] == "plain" && len(m.in) >= 1<<20 {
+				rs[0] = ""
+			}
+		}
+		for _, rt := range rs {
+			mm := m
+			switch rt {
+			case "plain":
+				mm.kind += "/plain-reader"
+			case "unmarshal":
+				mm.kind += "/Unmarshal"
+			}
+			routed = append(routed, mm)
+			routes = append(routes, rt)
+		}
+	}
+	muts = routed
 	cases := make([]WCase, len(muts))
 	for i, m := range muts {
 		cases[i] = WCase{Entry: "esl.decode", In: m.in}
-		if i%2 == 1 && len(m.in) < 1<<20 {
-			cases[i].P = map[string]string{"reader": "plain"}
-			muts[i].kind += "/plain-reader"
+		if routes[i] != "" {
+			cases[i].P = map[string]string{"reader": routes[i]}
 		}
 	}
 	res := runBatches(r, cases, 400, 16)
